@@ -157,6 +157,21 @@ def _pool_exec(arg):
     return isolated(_execute, arg)
 
 
+def tail_schedules(sc, counts, window=10):
+    """Two pre-emptions, both within the last `window` visible steps of each call (where the cache is
+    maintained): complete over that window."""
+    out = []
+    n = len(sc['calls'])
+    for first in range(n):
+        for other in range(n):
+            if other == first:
+                continue
+            for k1 in range(max(0, counts[first] - window), counts[first] + 1):
+                for k2 in range(max(1, counts[other] - window), counts[other] + 1):
+                    out.append([(first, k1), (other, k2), (first, None), (other, None)])
+    return out
+
+
 def schedules_for(sc, counts, max_preempt, rng, cap):
     """All schedules with <= max_preempt forced pre-emptions; counts[order] = steps per thread when
     the threads run to completion in that order."""
@@ -228,8 +243,13 @@ def run(tier):
                     ex = next(it)
                     counts[f] = sum(1 for t in ex['executed'] if t == f)
                 s['counts'] = counts
+                # the bounded-cache race needs two switches (iterator made, other thread inserts, next()):
+                # the cache scenarios get a sample of two-pre-emption schedules even in the quick tier
                 for seg in schedules_for(s, counts, 1 if quick else 2, rng, 400 if len(s['calls']) == 2 else 1200):
                     jobs.append((s, seg))
+                if s['group'] == 'cache' and len(s['calls']) == 2:
+                    for seg in tail_schedules(s, counts):
+                        jobs.append((s, seg))
             execs = pool.map(_pool_exec, jobs, chunksize=8)
         rep.count('evaluations', len(jobs) + len(probes) + len(solos))
         # (c) TLC validates the recorded executions
